@@ -539,6 +539,70 @@ class E3Session(SessionBase):
                                     f'{who}: up to {maxdiff(it["rrx"]["snr_01nm"], fr["gsnr_01nm"]):.4f} dB')
 
     # ---------------------------------------------------------------------------------------------------------
+    # C14 on the whole planning flow: what planning() leaves in the OMS list is exactly the union of the accepted
+    # assignments, on every OMS of each route in both directions, without overlap, inside the usable slots
+    def _judge_c14(self, data, out):
+        from gnpy.topology.spectrum_assignment import BitmapValue
+        oms_list = out['oms_list']
+        fresh = None
+        uid2oms = {}
+        for oms in oms_list:
+            for uid in oms.el_id_list[1:-1]:
+                uid2oms[uid] = oms.oms_id
+        expected = {oms.oms_id: {} for oms in oms_list}      # oms -> slot -> request id
+        services = {oms.oms_id: [] for oms in oms_list}
+        for it in out['items']:
+            if it['blocking'] is not None:
+                if it['N'] is not None or it['M'] is not None:
+                    raise Violation('C14', 'blocked-request-keeps-labels', f'request {it["rid"]}: N={it["N"]} M={it["M"]}')
+                continue
+            ns, ms = it['N'], it['M']
+            if not isinstance(ns, list) or not isinstance(ms, list) or not ns or len(ns) != len(ms) or \
+                    not all(isinstance(x, int) for x in ns + ms) or not all(m > 0 for m in ms):
+                raise Violation('C14', 'accepted-request-without-valid-labels', f'request {it["rid"]}: N={ns} M={ms}')
+            fwd = sorted({uid2oms[u] for u in it['route'] if u in uid2oms})
+            both = set(fwd)
+            for o in fwd:
+                r = oms_list[o].reversed_oms
+                if r is not None:
+                    both.add(r.oms_id)
+            rq = it['rq']
+            need = math.ceil(rq.spacing / 12.5e9) * math.ceil(rq.path_bandwidth / rq.bit_rate)
+            if sum(ms) < need:
+                raise Violation('C14', 'fewer-slots-than-bandwidth-needs', f'request {it["rid"]}: M={ms} need {need}')
+            for o in sorted(both):
+                services[o].append(it['rid'])
+                for n, m in zip(ns, ms):
+                    for x in range(n - m, n + m):
+                        if x in expected[o]:
+                            raise Violation('C14', 'double-booked-slot', f'oms {o} slot {x}: requests '
+                                            f'{expected[o][x]} and {it["rid"]}')
+                        expected[o][x] = it['rid']
+        if fresh is None:
+            eq_f, net_f, _ = gn.fresh_designed(self.world)
+            from gnpy.topology.spectrum_assignment import build_oms_list
+            fresh = build_oms_list(net_f, eq_f)
+        for oms, f_oms in zip(oms_list, fresh):
+            bm, fb = oms.spectrum_bitmap, f_oms.spectrum_bitmap
+            if bm.freq_index != fb.freq_index:
+                raise HarnessError('fresh OMS list differs in extent')
+            for n, now, before in zip(bm.freq_index, bm.bitmap, fb.bitmap):
+                want = BitmapValue.OCCUPIED if n in expected[oms.oms_id] else before
+                if now is not want:
+                    who = expected[oms.oms_id].get(n)
+                    kind = 'assignment-on-unusable-slot' if who is not None and before is not BitmapValue.FREE else \
+                        'occupancy-not-union-of-accepted'
+                    if who is not None and before is BitmapValue.FREE:
+                        kind = 'assignment-missing-on-an-oms-of-the-path'
+                    raise Violation('C14', kind, f'oms {oms.oms_id} ({oms.el_id_list[0]} -> {oms.el_id_list[-1]}) slot {n}: '
+                                    f'map {now.name}, expected {want.name} (request {who})')
+                if n in expected[oms.oms_id] and not (bm.freq_index_min <= n <= bm.freq_index_max):
+                    raise Violation('C14', 'assignment-outside-guard-bands', f'oms {oms.oms_id} slot {n}')
+            if sorted(oms.service_list) != sorted(services[oms.oms_id]):
+                raise Violation('C14', 'service-record-not-union-of-accepted',
+                                f'oms {oms.oms_id}: {oms.service_list} vs {services[oms.oms_id]}')
+
+    # ---------------------------------------------------------------------------------------------------------
     # C19: the response states exactly what was computed (history checks per plan)
     def _judge_c19(self, data, out):
         submitted = [str(r['request-id']) for r in data['path-request']]
@@ -731,6 +795,11 @@ class E3Session(SessionBase):
                    data['path-request'][0]['path-constraints']['te-bandwidth'].get('trx_mode') is None
                    for it in out['items']):
                 self.nontrivial = True
+        if 'C14' in self.props:
+            self._judge_c14(data, out)
+            if any(it['blocking'] in BLOCKING_NOSPECTRUM for it in out['items']) and \
+                    any(it['blocking'] is None for it in out['items']):
+                self.nontrivial = True
         if 'C19' in self.props:
             self._judge_c19(data, out)
             if len(kinds) > 1 or any(len(it['ids']) > 1 or it['bidir'] for it in out['items']):
@@ -895,7 +964,7 @@ SIM_DOCS = [
 
 def make_machine(prop, tier, cfg):
     props = {prop}
-    max_requests = {'C16': 6, 'C13': 3, 'C19': 6}[prop]
+    max_requests = {'C16': 6, 'C13': 3, 'C19': 6, 'C14': 8}[prop]
 
     @st.composite
     def any_world(draw):
@@ -986,6 +1055,10 @@ def replay(record, known=None):
 
 
 RULES = {
+    'C14': 'planning layer: one evaluation = one session as for C16 (batches of up to 8 requests, fixed / free N and M); after '
+           'every successful planning() the OMS list it returns must hold exactly the union of the accepted assignments on '
+           'every OMS of each route and of its opposite direction. Non-trivial = a batch with an accepted and a '
+           'spectrum-blocked request.',
     'C16': 'one evaluation = one session: a generated world (2-5 ROADM sites, equipment/topology/SI documents through the '
            'public loaders, auto-designed once) kept alive for a history of planning() calls: new batches (1-6 requests, '
            'fixed / automatic mode, bidirectional, include nodes, aggregating duplicates, disjunction pairs, saturating '
